@@ -71,6 +71,11 @@ def gen(rng, n):
             extra += [['f', t0 + '/directorysizes', '4096 1700000000 via\n'], ['f', t0 + '/stray.txt', 'stray']]
             extra += ([['d', t0 + '/expunged', 0o700], ['f', t0 + '/expunged/123456', 'half deleted'], ['d', t0 + '/expunged/dir1', 0o700], ['f', t0 + '/expunged/dir1/x', 'x']]
                       if rng.random() < 0.6 else [['l', t0 + '/expunged', '/canary/dir']])
+        if rng.random() < 0.25:
+            # an info file that is a symbolic link to a file OUTSIDE the trash (somebody keeps notes there, an attacker points it at
+            # ~/.profile): it may be read, it may be removed (the link, not the file), what it points to is never written to
+            t0 = argv_td[1].rstrip('/') if argv_td and not argv_td[1].startswith('/lnk/') else lay.home_trash
+            extra += [['l', t0 + '/info/notes.trashinfo', rng.choice(['/canary/file', '/canary/dir/x', '/canary/rodir/inside'])], ['f', t0 + '/files/notes', 'p']]
         cmd = rng.choice(['empty', 'empty', 'rm'])
         step = {'cmd': cmd, 'argv': [], 'listdir': rng.choice(['sorted', 'reverse', rng.randint(1, 99)])}
         if cmd == 'empty':
